@@ -151,6 +151,14 @@ func gen(r *vh.Rand, tier string, n int, emit func(vh.Case)) {
 			nops = r.Range(2, 25)
 		}
 		for j := 0; j < nops; j++ {
+			// blockstore write failures: the k-th Put / PutMany call from here fails, once or from then on
+			if r.Chance(1, 12) {
+				if r.Chance(1, 4) {
+					c.Ops = append(c.Ops, "putfail -")
+				} else {
+					c.Ops = append(c.Ops, fmt.Sprintf("putfail %d %d", vh.Pick(r, []int{0, 0, 0, 1, 1, 2, 3}), r.Intn(2)))
+				}
+			}
 			mode := vh.Pick(r, []string{"d", "s", "c"})
 			switch r.Intn(10) {
 			case 0, 1:
